@@ -6,6 +6,18 @@ var _ = gosym.Options{}
 
 var props = []PropSpec{
 	{
+		ID: "C19", Level: "translation_validation",
+		Explanation: "print -> re-lex -> re-parse (-> re-analyse -> run) inside one symbolic path for both printers on a program corpus with unconstrained host inputs, a string literal whose content runes are solver variables, and Optimize(p) vs p on the VM; outputs and outcomes are compared as SMT terms",
+		Harnesses: []HarnessSpec{
+			{Pkg: "homescript", Func: "VerifHarness_PrintRoundTrip", Quick: map[string]int{}, Require: []string{"printed", "ran"},
+				What: "52 programs x {parsed-tree printer, analysed-tree printer}: printed text parses, printing is a fixed point, acceptance preserved, VM output/outcome identical with unconstrained host inputs"},
+			{Pkg: "homescript", Func: "VerifHarness_PrintStringLiteral", Quick: map[string]int{"K": 2}, Thor: map[string]int{"K": 3}, Require: []string{"printed"},
+				What: "string literal of <=K unconstrained ASCII runes: printed literal lexes and parses back to the same content"},
+			{Pkg: "homescript", Func: "VerifHarness_Optimizer", Quick: map[string]int{"D": 1}, Thor: map[string]int{"D": 2}, Require: []string{"ran"},
+				What: "Optimize(p) vs p on the VM for the 52-program corpus and the nesting family (diverging statements followed by marker prints), unconstrained host inputs"},
+		},
+	},
+	{
 		ID: "C15", Level: "other",
 		Explanation: "bounded symbolic execution of analyzer, compiler, VM and tree interpreter on a module-graph family served by a harness host (visibility of function/global/type, which are imported, missing item/module, 2- and 3-cycles, overlapping private names as selectors) in map-order mode, so the orders in which host and compiler visit the modules are fork variables",
 		Harnesses: []HarnessSpec{
